@@ -518,6 +518,7 @@ func (g G) planC01() *Plan {
 		}
 		p.World.Presessions = append(p.World.Presessions, ps)
 	}
+	p.World.LiveRecords = g.chance("liveRecords", 25)
 	// several tenants on one instance: the issuer follows the request host, the storage keeps stored requests per tenant
 	// (per-tenant ids collide across tenants), the callback endpoint may be published under an external URL
 	tenants := g.chance("tenants", 12)
@@ -570,6 +571,16 @@ func (g G) planC01() *Plan {
 				m.FaultKind = g.drawFaultSigning(lab+".fak", 100)
 			}
 			p.Steps = append(p.Steps, Step{K: "send", Msg: m})
+			// live records: the login completes (possibly for another user than the preselected one) while the callback is between
+			// two of its storage calls
+			if p.World.LiveRecords && g.chance(lab+".liverace", 40) {
+				for k := g.rng(lab+".liverace.k", 1, 3); k > 0; k-- {
+					p.Steps = append(p.Steps, Step{K: "resume", Pick: 99})
+				}
+				p.Steps = append(p.Steps, Step{K: "mutate", Mut: g.pick(lab+".liverace.m", "complete", "complete", "uncomplete"), A: m.Session, B: g.intn(lab+".liverace.u", 3)})
+				p.Steps = append(p.Steps, Step{K: "finish", Pick: 99})
+				break
+			}
 			// biased placement: race the completion against the callback's storage read
 			if g.chance(lab+".race", 50) {
 				if g.chance(lab+".before", 50) {
